@@ -217,6 +217,21 @@ SPECS += [
          note="cut: the if/elif chain under `elif type(req) == DEP_REQ:` (ATN / NAK / RTOX / same PNI / new request); "
               "PDU objects are opaque tokens (`res`, `dep_res`, `dep_req` optional ints, `req` an int), the local "
               "function ATN is the parameter `mkatn`; result (res, dep_req)"),
+    Spec(GROUP, "dep_tgt_dispatch", F, "Target.send_dep_res_recv_dep_req",
+         [("res", OPT(INT)), ("dep_res", OPT(INT)), ("dep_req", OPT(INT)), ("req", INT)],
+         path=[(3, "body")], stmts=[1],
+         binds=[("req is None", "req_none", BOOL), ("req.did != self.did", "did_mismatch", BOOL),
+                ("type(req) == DSL_REQ", "is_dsl", BOOL), ("type(req) == RLS_REQ", "is_rls", BOOL),
+                ("type(req) == DEP_REQ", "is_dep", BOOL), ("req.pfb.fmt", "fmt", INT),
+                ("req.pfb.pni", "rpni", INT), ("self.pni", "pni", INT), ("dep_res.pfb.fmt", "dep_res_fmt", INT),
+                ("self.did", "did", OPT(INT)), ("self.nad", "nad", OPT(INT))],
+         opaque={"ATN": ("mkatn", [OPT(INT), OPT(INT)], OPT(INT), False)},
+         drop=["self.send_res_recv_req"], inert=["DSL_RES", "RLS_RES"],
+         result=["res", "dep_req"], ret=OPT(TUP(OPT(INT), OPT(INT))),
+         note="cut: the whole if/elif chain of one loop turn after `req = self.send_res_recv_req(res, deadline)`; the "
+              "tests on the request object (`req is None`, `req.did != self.did`, `type(req) == ..`) are Bool "
+              "parameters, PDU objects opaque tokens, ATN the parameter `mkatn`; the DSL_RES / RLS_RES answers "
+              "(`self.send_res_recv_req(DSL_RES(self.did), 0)`) are dropped; result None = `return None`, else (res, dep_req)"),
     # ---- NFCID3 of the Target and its SENSF_RES
     Spec(GROUP, "dep_tgt_nfcid3", F, "Target.activate", [], stmts=[5],
          opaque={"os.urandom": ("urandom", [INT], BYTES, False)}, result=["nfcid3t"],
@@ -245,8 +260,8 @@ BRIDGE = {
         "ini_rtox_bridge", "gen_ini_rtox_safe", "tgt_rtox_bridge", "gb_cut_bridge", "ini_nfcid3_212_bridge",
         "ini_ack_chk_bridge", "ini_inf_chk_bridge", "ini_nak_chk_bridge", "ini_atn_chk_bridge", "fmt_tests_bridge",
         "ini_retrans_chk_bridge", "tgt_ack_chk_bridge", "tgt_send_step_bridge", "ini_send_step_bridge", "ini_recv_step_bridge",
-        "tRxActive_dep_eq", "tgt_dep_dispatch_bridge", "gen_tgt_duplicate_resent", "tgt_nfcid3_bridge", "tgt_sensf_bridge",
-        "nfcid3_212_roundtrip")],
+        "tRxActive_dep_eq", "tgt_dep_dispatch_bridge", "gen_tgt_duplicate_resent", "tgt_dispatch_bridge", "tgt_nfcid3_bridge",
+        "tgt_sensf_bridge", "nfcid3_212_roundtrip")],
     "properties": ["C04", "C07", "C19"],
 }
 
@@ -422,6 +437,8 @@ MUTATIONS = [
     ("dep_dep_req_encode", "NAD octet in front of the DID octet", "        if self.pfb.did:\n            data.append(self.did)\n        if self.pfb.nad:\n            data.append(self.nad)", "        if self.pfb.nad:\n            data.append(self.nad)\n        if self.pfb.did:\n            data.append(self.did)"),
     ("dep_dep_res_encode", "PDU type position", "(pfb.fmt << 4)", "(pfb.fmt << 5)"),
     ("dep_dep_res_encode", "DID flag bit", "(pfb.did << 2)", "(pfb.did << 1)"),
+    ("dep_tgt_dispatch", "device identifier filter dropped", "elif req.did != self.did:", "elif req.did != req.did:"),
+    ("dep_tgt_dispatch", "release request treated as an unknown command", "elif type(req) == RLS_REQ:", "elif type(req) == ATR_REQ:"),
     ("dep_tgt_sensf", "SENSF_RES carries NFCID3 octets 1..8", "nfcid3t[0:8]", "nfcid3t[1:9]"),
     ("dep_ini_miu", "header size", "atr_res.lr-3", "atr_res.lr-2"),
     ("dep_ini_miu", "NAD octet not counted", "- int(self.nad is not None))", "- int(self.nad is None))"),
